@@ -135,8 +135,14 @@ impl<T: AsRef<[u8]>> Packet<T> {
         // > An all zero transmitted checksum value means that the transmitter
         // > generated no checksum (for debugging or for higher level protocols
         // > that don't care).
+        // This holds for UDP over IPv4 only: over IPv6 the checksum is mandatory and a
+        // datagram with a zero checksum must be discarded (RFC 8200 § 8.1).
         if self.checksum() == 0 {
-            return true;
+            return match (src_addr, dst_addr) {
+                #[cfg(feature = "proto-ipv4")]
+                (IpAddress::Ipv4(_), IpAddress::Ipv4(_)) => true,
+                _ => false,
+            };
         }
 
         let data = self.buffer.as_ref();
